@@ -90,6 +90,32 @@ def run(repo, rep):
         r = orc2.call(oname, x=Rat.sym('x'), y=Rat.sym('y'), z=Rat.sym('z'), epoch=Rat.sym('epoch'), vcv=Rat.sym('vcv'))
         check_equal(rep, 'R-WIRE', 'R-WIRE::geodepy/transform.py::%s::result' % fname, where(g, g.node), v, r,
                     '%s = conform14 with %s, epoch and covariance forwarded' % (fname, what))
+    # 3b. the wrappers at concrete epochs (exact constant folding, symbolic point): reference epoch, the same year, other years
+    import datetime
+    for fname, neg in (('transform_atrf2014_to_gda2020', False), ('transform_gda2020_to_atrf2014', True)):
+        g = repo.func('geodepy.transform', fname)
+        c14 = repo.func('geodepy.transform', 'conform14')
+        for ymd in ((2020, 1, 1), (2020, 1, 2), (2020, 7, 1), (2020, 12, 31), (2019, 12, 31), (2000, 1, 1), (1994, 1, 1), (2059, 12, 31)):
+            ev4 = Evaluator(repo)
+            ev4.dates_are_typed = True
+            o = datetime.date(*ymd).toordinal()
+            ev4.dates[o] = ymd
+            gp = [p.name for p in g.params]
+            pt = {gp[0]: Rat.sym('x'), gp[1]: Rat.sym('y'), gp[2]: Rat.sym('z')}
+            got = ev4.call_function(g, dict(pt, **{gp[3]: C(o), gp[4]: NONE}))
+            T = ev4.global_value(repo.module('geodepy.constants'), 'atrf2014_to_gda2020')
+            if neg:
+                ncls = repo.cls('geodepy.constants', 'Transformation')
+                T = ev4.call_function(ncls.methods['__neg__'], {'self': T})
+            cp = [p.name for p in c14.params]
+            ref = ev4.call_function(c14, {cp[0]: Rat.sym('x'), cp[1]: Rat.sym('y'), cp[2]: Rat.sym('z'), cp[3]: C(o), cp[4]: T, cp[5]: NONE})
+            key = 'R-WIRE::geodepy/transform.py::%s::epoch=%04d-%02d-%02d' % ((fname,) + ymd)
+            if isinstance(got, Tup) and isinstance(ref, Tup) and len(got.items) == 4 and len(ref.items) == 4:
+                for i_, nm in enumerate('xyz'):
+                    check_equal(rep, 'R-WIRE', key + '::' + nm, where(g, g.node), got.items[i_], ref.items[i_],
+                                '%s at epoch %04d-%02d-%02d = conform14 with the %splate-motion set, coordinate %s' % ((fname,) + ymd + ('negated ' if neg else '', nm)))
+            else:
+                rep.undecided('R-WIRE', key, where(g, g.node), 'wrapper or conform14 does not evaluate to a 4-tuple at a concrete epoch')
     # 4. plate motion model
     ev3 = Evaluator(repo)
     m = repo.module('geodepy.constants')
